@@ -577,12 +577,14 @@ class SecopClient(ProxyClient):
             pass
         if self.io:
             self.io.shutdown()
-        if self._txthread:
+        # the threads reset these attributes themselves when they end: use local references
+        txthread, rxthread = self._txthread, self._rxthread
+        if txthread:
             self.txq.put(None)  # shutdown marker
-            self._txthread.join()
+            txthread.join()
             self._txthread = None
-        if self._rxthread:
-            self._rxthread.join()
+        if rxthread:
+            rxthread.join()
             self._rxthread = None
         if self.io:
             self.io.disconnect()
